@@ -66,7 +66,7 @@ def cases(tier, seed):
                 out.append(dict(kind='scalar-operand', cfg=cfg, op=op, ka=list(rng.choice(pat.RND(d, 6, rng, max_len=3, min_len=1))), hseed=rng.randrange(10 ** 6)))
     # registered(symbolic=True) functions of one and three arguments (the n-ary call path), and a counting wrapper
     for cfg in (dict(p=2), dict(p=2, r=1), dict(p=3)):
-        for op in ('registered-sym1', 'registered-sym3', 'wrapped-gp', 'wrapped-inv', 'wrapped-registered'):
+        for op in ('registered-sym1', 'registered-sym3', 'wrapped-gp', 'wrapped-inv', 'wrapped-registered', 'nested-registered', 'nested-registered-outer-first'):
             for _ in range(2 if tier == 'quick' else 8):
                 dd = sum(cfg.values())
                 out.append(dict(kind='nary-history', cfg=cfg, op=op, ka=rng.sample(range(2 ** dd), 2), kb=rng.sample(range(2 ** dd), 2), hseed=rng.randrange(10 ** 6)))
@@ -96,6 +96,31 @@ def _run_nary(desc, V):
     exec('def reg_one(x):\n    return x * ~x\n'
          'def reg_three(x, y, z):\n    return x * y + z\n'
          'def reg_two(x, y):\n    return (x | y) + (x ^ y)\n', ns)
+    if op.startswith('nested-registered'):
+        # a registered function used inside two other registered functions: its code for one key pattern is generated once,
+        # whether it is first needed directly or while an outer function is compiled
+        inner = alg.register(ns['reg_two'])
+        ns2 = {'inner': inner}
+        exec('def reg_outer(x, y):\n    return inner(x, y) + x\n'
+             'def reg_outer2(x, y):\n    return inner(x, y) * y\n', ns2)
+        outer, outer2 = alg.register(ns2['reg_outer']), alg.register(ns2['reg_outer2'])
+        order = [inner, outer, outer2] if op == 'nested-registered' else [outer, inner, outer2]
+        claims = [Note('nontrivial', '')]
+        mk = lambda kind, tag: [MultiVector.fromkeysvalues(alg, tuple(pats_[i]), _values(kind, V, f'{tag}{i}', len(pats_[i]), rng)) for i in range(2)]
+        pats_ = [desc['ka'], desc['kb']]
+        for j, g in enumerate(order):
+            g(*mk('sv', f'first{j}'))                    # first calls: generation allowed (once per function and pattern)
+        for i, kind in enumerate(['fraction', 'sv', 'int', 'float']):
+            for j, g in enumerate(order):
+                before = kapi.recorder_counts()
+                g(*mk(kind, f'rep{i}_{j}'))
+                after = kapi.recorder_counts()
+                diff = {k: after[k] - before[k] for k in after if after[k] != before[k]}
+                if diff:
+                    claims.append(Fail(f'events-on-repeat[{i}:{kind}:{j}]', f'{op}: repeat of function {j} with {kind} coefficients caused {diff}', fkey=f'nary-history|{op}|events'))
+        claims += _twice_claims(alg, op)
+        claims.append(Eq('history-completed', 1, 1))
+        return claims
     if op == 'registered-sym1':
         f, nargs = alg.register(ns['reg_one'], symbolic=True), 1
     elif op == 'registered-sym3':
@@ -447,7 +472,9 @@ def _flat(k):
 
 def _twice_claims(alg, op):
     out = []
+    import re
     for (name, keys), n in sorted(kapi.generated_more_than_once(alg).items(), key=str)[:5]:
+        name = re.sub(r'_\d+$', '', name)          # registrations carry a process-wide serial number: not part of the finding
         out.append(Fail(f'generated-twice[{name}]', f'code for {name} with key patterns {keys} was generated {n} times on one algebra',
                         fkey=f'history|generated-more-than-once|{"same-operator" if name.replace("compile:", "").endswith(op) or op in name else "nested-operator"}'))
     return out
